@@ -317,7 +317,8 @@ fn format_line_number(
                 hyperlinks::format_osc8_file_hyperlink(absolute_path, line_number, &pad(n), config)
                     .to_string()
             }
-            None => file.to_owned(),
+            // No link is possible; the field still shows the number (not the file name).
+            None => pad(n),
         },
         (Some(n), _, _) => pad(n),
     }
